@@ -116,18 +116,35 @@ impl Machine {
                 let mut seen = BTreeSet::new();
                 let mut a: Vec<(u8, u8)> = Vec::new();
                 let mut u: Vec<(u8, u8)> = Vec::new();
-                for (s, v) in added.iter().chain(updated.iter()) {
+                // via >= 3: a live rule named in both `deleted` and `added` is deleted and created anew under the same id in
+                // one change-set (it stays in `added` instead of being moved to `updated`)
+                let recreate = *via >= 3;
+                let mut recreated: Vec<u8> = Vec::new();
+                for (k, (s, v)) in added.iter().chain(updated.iter()).enumerate() {
                     let s = s % SLOTS;
                     if !seen.insert(s) {
                         continue;
                     }
                     if self.model.contains_key(&s) {
-                        u.push((s, v % VERSIONS));
+                        if recreate && k < added.len() && (k == 0 || deleted.iter().any(|d| d % SLOTS == s)) {
+                            a.push((s, v % VERSIONS));
+                            recreated.push(s);
+                        } else {
+                            u.push((s, v % VERSIONS));
+                        }
                     } else {
                         a.push((s, v % VERSIONS));
                     }
                 }
-                let d: Vec<u8> = deleted.iter().map(|s| s % SLOTS).filter(|s| !a.iter().any(|(x, _)| x == s)).collect();
+                let mut d: Vec<u8> = deleted.iter().map(|s| s % SLOTS).filter(|s| recreated.contains(s) || !a.iter().any(|(x, _)| x == s)).collect();
+                for s in &recreated {
+                    if !d.contains(s) {
+                        d.push(*s);
+                    }
+                }
+                if !recreated.is_empty() {
+                    info.updated_live = true;
+                }
                 let mut new_model = self.model.clone();
                 for s in &d {
                     if let Some(v) = new_model.remove(s) {
@@ -192,7 +209,7 @@ pub fn op_strategy() -> BoxedStrategy<HOp> {
         8 => slot_ver().prop_map(|(slot, ver)| HOp::Insert { slot, ver }),
         4 => (0..SLOTS).prop_map(|slot| HOp::Remove { slot }),
         2 => prop::collection::vec(0..SLOTS, 0..4).prop_map(|slots| HOp::BatchRemove { slots }),
-        5 => (prop::collection::vec(slot_ver(), 0..3), prop::collection::vec(slot_ver(), 0..3), prop::collection::vec(0..SLOTS, 0..3), 0u8..3)
+        5 => (prop::collection::vec(slot_ver(), 0..3), prop::collection::vec(slot_ver(), 0..3), prop::collection::vec(0..SLOTS, 0..3), 0u8..6)
             .prop_map(|(added, updated, deleted, via)| HOp::ChangeSet { added, updated, deleted, via }),
         2 => crate::engine::pick(vec![None, Some(0u64), Some(1), Some(2), Some(3), Some(5), Some(10), Some(1000)]).prop_map(|n| HOp::Cache { n }),
     ]
